@@ -162,6 +162,7 @@ def cpp_part(ctx):
                             lean_lines.append(load_line(st)); lean_expect.append(None); lean_meta.append((kind, 'load'))
     for name, c in hist.items():
         ctx.tick('cpp:' + name, c)
+    alphabet_part(ctx, inc, hist)
     ctx.extra['cpp_seconds'] = round(time.time() - t0, 1)
     got = run_driver('cppdriver', lean_lines)
     ctx.corr_lines += len(lean_lines)
@@ -173,6 +174,41 @@ def cpp_part(ctx):
             ctx.fail('correspondence', 'C++ headers vs Lean CppM', lean_meta[i][1].split()[0],
                      f'line {i} `{ln}`: interpreter `{lean_expect[i]}` model `{g}`', detail=dict(prev=lean_lines[max(0, i - 6):i]))
             break
+
+
+def alphabet_part(ctx, inc, hist):
+    """coverage of the op alphabet, checked: every public mutator of QuadraticModelBase found in abc.h (name, arity,
+    initializer-list overload; harness/translators/c20_abc_mutators.py) is called with that arity by an op of
+    harness/cpp/interp.cc, that op is one the Lean driver executes (`Cpp.driverOps` = MODELLED) and the generator emitted it
+    in this run"""
+    import importlib.util
+    spec = importlib.util.spec_from_file_location('c20_abc_mutators', os.path.join(VERIF, 'harness', 'translators', 'c20_abc_mutators.py'))
+    T = importlib.util.module_from_spec(spec); spec.loader.exec_module(T)
+    muts, _ = T.mutators(os.path.join(inc, 'dimod', 'abc.h'))
+    calls = T.interp_calls()
+    lean_src = open(os.path.join(VERIF, 'lean', 'DimodModel', 'CppCover.lean')).read()
+    m = re.search(r'def driverOps : List String :=\s*\[(.*?)\]', lean_src, flags=re.S)
+    driver_ops = set(re.findall(r'"(\w+)"', m.group(1))) if m else set()
+    if driver_ops != MODELLED:
+        ctx.fail('correspondence', 'op alphabet', 'Cpp.driverOps differs from the ops the harness sends to the model',
+                 f'only in Lean: {sorted(driver_ops - MODELLED)}, only in c20.py: {sorted(MODELLED - driver_ops)}')
+    cover = dict((tuple([n, int(a), il == 'true']), re.findall(r'"(\w+)"', ops))
+                 for n, a, il, ops in re.findall(r'\(\("(\w+)", (\d+), (true|false)\), \[(.*?)\]\)', lean_src))
+    for s in muts:
+        name = f'{s[0]}/{s[1]}' + ('/initializer_list' if s[2] else '')
+        toks = sorted(t for t, cs in calls.items() if s in cs)
+        if not toks:
+            ctx.fail('correspondence', 'op alphabet', f'{name} not exercised', f'abc.h declares the public mutator {name}; no op of harness/cpp/interp.cc calls it with that arity')
+        elif not any(t in MODELLED for t in toks):
+            ctx.fail('correspondence', 'op alphabet', f'{name} not modelled', f'{name} is called by {toks}, none of which the Lean driver executes')
+        elif not any(hist.get(t) for t in toks):
+            ctx.fail('correspondence', 'op alphabet', f'{name} not generated', f'{name} is called by {toks}; the generator emitted none of them in this run')
+        elif sorted(cover.get(tuple(s), [])) != [t for t in toks]:
+            ctx.fail('correspondence', 'op alphabet', f'{name}: coverage table out of step',
+                     f'Cpp.cover says {cover.get(tuple(s))}, interp.cc calls it under {toks}')
+        else:
+            ctx.tick('abc-mutator-covered:' + name, sum(hist.get(t, 0) for t in toks))
+    ctx.extra['abc_public_mutators'] = len(muts)
 
 
 # ---------------------------------------------------------------- (ii) Python boundary
